@@ -10,7 +10,10 @@
    are judged on the same history by Check/C20Check.v (`c20_ok`). Clause (c) looks the id up in the registry AT DELIVERY
    TIME: a message whose scenario was unregistered before the delivery may go to any registered scenario (the real
    collector's broadcast rule); that the runner forwards a span's logs BEFORE `finish_scenario` is again the ordering
-   judged by C20Check. *)
+   judged by C20Check.
+   Where "delivery time" is measured (third review, M2): an `ADeliver` record is made by the trace point at which the RUNNER hands
+   the Log event over (`send_event`, the same thread-local trace as the `reg` / `unreg` records of the collector), not where a
+   writer receives it: the order of `ADeliver` and `AUnreg` records is the order of the collector's own actions. *)
 From CV Require Import Model.Base Model.Events Model.TracingAttr Check.Verdict.
 
 Record acase20 := mk_acase20 { a20_recs : list arec }.
